@@ -29,7 +29,6 @@ PreAtoms(V, d) == {L(<<"LA" \o ToString(d)>>, "DW", <<"LA" \o ToString(d)>>)}
 PostAtoms(V, d, rich) ==
   (IF V = <<>> THEN {DW(<<"1">>)} ELSE {DW(<<V[Len(V)]>>)})
   \cup (IF rich THEN {DW(<<V[i]>>) : i \in DOMAIN V} \cup {DW(<<"G1", "+", V[i]>>) : i \in {Len(V)} \cap DOMAIN V}
-                      \cup {L(<<"LB" \o ToString(d)>>, "DW", <<"LA" \o ToString(d)>>)}
         ELSE {})
 
 \* loop headers at depth d: [pre, line, tail, names]; counts 0..3
@@ -162,20 +161,45 @@ LabelProg(glob, n, inner) ==
      \o <<DW(<<"LA">>), ENDM, L(<<"M0">>, "MACRO", <<>>), ENDM>> \o [i \in 1..(IF glob THEN 1 ELSE n) |-> L(<<>>, "M1", <<>>)]
      \o (IF glob THEN <<>> ELSE <<L(<<"LA">>, "DW", <<"LA">>)>>)]
 
+\* features with one fixed shape each: INTLABEL / __LABEL__, ALLARGS handed to IRP (the manual's pushlist), a macro
+\* that defines a macro, a GLOBALSYMBOLS macro whose label is used outside, ATTRIBUTE (targets with attributes)
+SpecialProg(kind) ==
+  [f \in {"a.asm"} |->
+     CASE kind = "intlabel" ->
+            <<L(<<"M1">>, "MACRO", <<"{", "INTLABEL", "}">>), L(<<LABELTOK>>, "DW", <<"1">>), DW(<<"2">>), ENDM,
+              L(<<"LX">>, "M1", <<>>), L(<<>>, "M1", <<>>)>>
+       [] kind = "nointlabel" ->
+            <<L(<<"M1">>, "MACRO", <<>>), L(<<LABELTOK>>, "DW", <<"1">>), ENDM, L(<<"LX">>, "M1", <<>>), L(<<"LY">>, "M1", <<>>), DW(<<"LX", "+", "LY">>)>>
+       [] kind = "pushlist" ->
+            <<L(<<"S1">>, "SET", N(11)), L(<<"S2">>, "SET", N(12)), L(<<"S3">>, "SET", N(13)),
+              L(<<"M1">>, "MACRO", <<"REG">>), L(<<>>, "IRP", <<"REG", ",", "ALLARGS">>), DW(<<"REG">>), ENDM, ENDM,
+              L(<<>>, "M1", <<"S1", ",", "S2", ",", "S3">>), L(<<>>, "M1", <<"S2">>)>>
+       [] kind = "macinmac" ->
+            <<L(<<"M1">>, "MACRO", <<"A">>), L(<<"M2">>, "MACRO", <<"B">>), DW(<<"A", "+", "B">>), L(<<"LI">>, "DW", <<"LI">>), ENDM,
+              L(<<>>, "M2", <<"5">>), L(<<>>, "M2", <<"6">>), ENDM, L(<<>>, "M1", <<"3">>), L(<<>>, "M2", <<"7">>)>>
+       [] kind = "globmac" ->
+            <<L(<<"M1">>, "MACRO", <<"A", ",", "{", "GLOBALSYMBOLS", "}">>), L(<<"LG">>, "DW", <<"A">>), ENDM,
+              L(<<>>, "M1", <<"7">>), DW(<<"LG">>)>>
+       [] OTHER ->     \* "attr"
+            <<L(<<"M1">>, "MACRO", <<"OP">>), <<SP, "DC", ".", "ATTRIBUTE", SP, "OP">>, ENDM,
+              <<SP, "M1", ".", "W", SP, "5">>, <<SP, "M1", ".", "B", SP, "6">>, <<SP, "M1", ".", "B", SP, "7">>,
+              <<"LQ", SP, "M1", ".", "L", SP, "LQ">>>>]
+
 \* INCLUDE of generated files (nested up to 3), the included file uses the constructs of the including one
 InclProg(depth, viaMacro) ==
-  LET inc(i) == "i" \o ToString(i) \o ".inc"
-      body(i) == <<DW(N(i))>> \o (IF i < depth THEN <<L(<<>>, "INCLUDE", <<inc(i + 1)>>)>> ELSE <<L(<<>>, "M1", N(i))>>) \o <<DW(N(10 + i))>>
+  LET inc(i) == "I" \o ToString(i) \o ".INC"
+      arg(i) == <<"I" \o ToString(i), ".", "INC">>
+      body(i) == <<DW(N(i))>> \o (IF i < depth THEN <<L(<<>>, "INCLUDE", arg(i + 1))>> ELSE <<L(<<>>, "M1", N(i))>>) \o <<DW(N(10 + i))>>
   IN [f \in {"a.asm"} \cup {inc(i) : i \in 1..depth} |->
         IF f = "a.asm"
         THEN <<L(<<"M1">>, "MACRO", <<"A">>), L(<<"LB">>, "DW", <<"A">>), ENDM>>
-             \o (IF viaMacro THEN <<L(<<"M2">>, "MACRO", <<>>), L(<<>>, "INCLUDE", <<inc(1)>>), DW(<<"44">>), ENDM, L(<<>>, "M2", <<>>), L(<<>>, "M2", <<>>)>>
-                 ELSE <<L(<<>>, "REPT", N(2)), L(<<>>, "INCLUDE", <<inc(1)>>), ENDM>>)
+             \o (IF viaMacro THEN <<L(<<"M2">>, "MACRO", <<>>), L(<<>>, "INCLUDE", arg(1)), DW(<<"44">>), ENDM, L(<<>>, "M2", <<>>), L(<<>>, "M2", <<>>)>>
+                 ELSE <<L(<<>>, "REPT", N(2)), L(<<>>, "INCLUDE", arg(1)), ENDM>>)
         ELSE body(CHOOSE i \in 1..depth : inc(i) = f)]
 
 \* BINCLUDE windows
 BinProg(size, ofs, len) ==
-  [f \in {"a.asm"} |-> <<DB(<<"1">>), L(<<"LB">>, "BINCLUDE", Cs(<<<<QUOTE, "b.bin", QUOTE>>>> \o (IF ofs < 0 THEN <<>> ELSE <<N(ofs)>> \o (IF len < 0 THEN <<>> ELSE <<N(len)>>)))),
+  [f \in {"a.asm"} |-> <<DB(<<"1">>), L(<<"LB">>, "BINCLUDE", Cs(<<<<QUOTE, "B", ".", "BIN", QUOTE>>>> \o (IF ofs < 0 THEN <<>> ELSE <<N(ofs)>> \o (IF len < 0 THEN <<>> ELSE <<N(len)>>)))),
                          L(<<>>, "DW", <<"LB">>)>>]
-BinFile(size) == [f \in {"b.bin"} |-> [i \in 1..size |-> (i * 7 + 3) % 256]]
+BinFile(size) == [f \in {"B.BIN"} |-> [i \in 1..size |-> (i * 7 + 3) % 256]]
 =============================================================================
